@@ -4,7 +4,9 @@
 //	P2P    – p2p.P2PInterface for ONE node: the harness owns the subscription
 //	         channel (it decides which message the node sees next) and gets a
 //	         call-back / record for every Request the node makes;
-//	Chain  – onchain.ProxyAdapter that records UpdateRandomness / DataReturn;
+//	Chain  – onchain.ProxyAdapter that records UpdateRandomness / DataReturn and hands the
+//	         harness' chain events to onchainLoop;
+//	DKG    – dkg.PDKGInterface with a pre-loaded group table;
 //	Logger – log.Logger that counts Event names, so a harness can wait for
 //	         "the stage has received its k-th input" without sleeping.
 //
@@ -14,6 +16,7 @@ package doubles
 
 import (
 	"context"
+	"math/big"
 	"net"
 	"sync"
 	"time"
@@ -22,6 +25,8 @@ import (
 	"github.com/DOSNetwork/core/onchain"
 	"github.com/DOSNetwork/core/p2p"
 	"github.com/DOSNetwork/core/p2p/discover"
+	"github.com/DOSNetwork/core/share"
+	dkg "github.com/DOSNetwork/core/share/dkg/pedersen"
 	vss "github.com/DOSNetwork/core/share/vss/pedersen"
 	"github.com/ethereum/go-ethereum/common"
 	"github.com/golang/protobuf/proto"
@@ -134,6 +139,11 @@ type Chain struct {
 	Addr      common.Address
 	BlockTime uint64 // handleQuery's timeout is 60*BlockTime seconds
 	Err       error  // returned by the two report calls
+	// Events / EventErrs are what SubscribeEvent returns (onchainLoop reads chain events from
+	// them): the harness injects *onchain.LogUpdateRandom etc. Make Events unbuffered to know
+	// when the loop took an event. nil = created on first use.
+	Events    chan interface{}
+	EventErrs chan error
 	// Notify (optional, buffered by the caller) receives one value per report.
 	Notify chan struct{}
 
@@ -160,11 +170,75 @@ func (c *Chain) record(kind string, s *vss.Signature) error {
 func (c *Chain) UpdateRandomness(s *vss.Signature) error { return c.record("rand", s) }
 func (c *Chain) DataReturn(s *vss.Signature) error       { return c.record("data", s) }
 func (c *Chain) GetBlockTime() uint64                    { return c.BlockTime }
-func (c *Chain) Address() common.Address                 { return c.Addr }
+func (c *Chain) SubscribeEvent([]int) (chan interface{}, chan error) {
+	c.mu.Lock()
+	defer c.mu.Unlock()
+	if c.Events == nil {
+		c.Events = make(chan interface{})
+	}
+	if c.EventErrs == nil {
+		c.EventErrs = make(chan error)
+	}
+	return c.Events, c.EventErrs
+}
+func (c *Chain) RegisterNewNode() error            { return nil }
+func (c *Chain) UnRegisterNode() error             { return nil }
+func (c *Chain) Balance() (*big.Float, error)      { return big.NewFloat(100), nil }
+func (c *Chain) DisconnectAll()                    {}
+func (c *Chain) DisconnectWs(int)                  {}
+func (c *Chain) Connect([]string, time.Time) error { return nil }
+func (c *Chain) Address() common.Address           { return c.Addr }
 func (c *Chain) Reports() []Report {
 	c.mu.Lock()
 	defer c.mu.Unlock()
 	return append([]Report(nil), c.reports...)
+}
+
+// ---------------------------------------------------------------- DKG
+
+// Group is one entry of the node's group table (what pdkg holds after a key generation).
+type Group struct {
+	IDs [][]byte
+	Pub *share.PubPoly
+	Sec *share.PriShare
+}
+
+// DKG is a dkg.PDKGInterface whose group table is pre-loaded by the harness, keyed by the group id
+// string the node uses (lower-case hex of the on-chain group id, no leading zeros).
+type DKG struct {
+	dkg.PDKGInterface
+	mu     sync.Mutex
+	Groups map[string]Group
+}
+
+func (d *DKG) get(id string) (Group, bool) {
+	d.mu.Lock()
+	defer d.mu.Unlock()
+	g, ok := d.Groups[id]
+	return g, ok
+}
+func (d *DKG) Loop() {}
+func (d *DKG) GetGroupPublicPoly(id string) *share.PubPoly {
+	g, _ := d.get(id)
+	return g.Pub
+}
+func (d *DKG) GetShareSecurity(id string) *share.PriShare {
+	g, _ := d.get(id)
+	return g.Sec
+}
+func (d *DKG) GetGroupIDs(id string) [][]byte {
+	g, _ := d.get(id)
+	return g.IDs
+}
+func (d *DKG) GetGroupNumber() int {
+	d.mu.Lock()
+	defer d.mu.Unlock()
+	return len(d.Groups)
+}
+func (d *DKG) GroupDissolve(id string) {
+	d.mu.Lock()
+	delete(d.Groups, id)
+	d.mu.Unlock()
 }
 
 // ---------------------------------------------------------------- Logger
